@@ -94,6 +94,7 @@ View == st
 Cls(v, lo, hi) == IF v < lo THEN "below" ELSE IF v = lo THEN "first" ELSE IF v < hi THEN "mid" ELSE IF v = hi THEN "last" ELSE "above"
 RowCls == IF st.rows = <<>> THEN "none" ELSE IF st.y >= Len(st.rows) THEN "norow" ELSE IF Len(st.rows[st.y + 1]) <= st.x THEN "short" ELSE IF Len(st.rows[st.y + 1]) > st.tw THEN "long" ELSE "ok"
 MarginCls == IF st.mtb = <<>> THEN "none" ELSE IF st.mtb[2] < 0 THEN "neg" ELSE IF st.mtb[1] = st.mtb[2] THEN "one" ELSE IF st.mtb[2] >= st.th THEN "big" ELSE "norm"
-GenView == << Cls(st.x, 0, st.tw - 1), Cls(st.y, First(st), First(st) + st.th - 1), RowCls, MarginCls, st.mlr = <<>>, st.bh > st.th, st.im, st.aw, st.dm, st.ls, Len(st.rows) > st.lh, st.ca.bg # 0 >>
+LrCls == IF st.mlr = <<>> THEN "none" ELSE IF st.mlr[2] >= st.tw THEN "big" ELSE IF st.mlr[1] >= st.mlr[2] THEN "one" ELSE "norm"
+GenView == << Cls(st.x, 0, st.tw - 1), Cls(st.y, First(st), First(st) + st.th - 1), RowCls, MarginCls, LrCls, st.bh > st.th, st.im, st.aw, st.dm, st.ls, Len(st.rows) > st.lh, st.ca.bg # 0 >>
 Emit == IF hist = <<>> THEN PrintT(<<"ALPHABET", ToJson([toks |-> SetToSeq(Toks)])>>) ELSE PrintT(<<"WITNESS", ToJson([hist |-> hist])>>)
 =============================================================================
